@@ -286,7 +286,7 @@ def run(chk, ctx):
     tsres, _n = tsrules.timestamp_operands(ctx)
     for cons, okk, why in tsres:
         chk.ob('C04.X', cons, okk, why, site='pamqp/encode.py::timestamp')
-    for cons, okk, why in tsrules.table_key_rule(ctx):
+    for cons, okk, why in tsrules.table_key_rule(ctx, exact=True):
         if okk is not None:
             chk.ob('C04.T', cons, okk, why,
                    site='pamqp/encode.py::field_table')
